@@ -94,13 +94,13 @@ def run(tier, seed, replay=None):
                 samples.append({"kind": "lock-step behaviour (Backlog actions)", "steps": steps[0][:12]})
             validate_trace(sc, verdict, trace, 2 * UNIT[backend], "replay-" + backend, stats)
         # (B) free runs
-        free = [("mem", 1, 4096), ("mem", 12288, 12288)] + ([("mem", 8192, 8192), ("mem", 20000, 20480), ("file", 1, 4 * 1024 * 1024), ("file", 9 * 1024 * 1024, 12 * 1024 * 1024)] if thorough else [])
+        free = [("mem", 1, 4096), ("mem", 12288, 12288), ("file", 1, 4 * 1024 * 1024)] + ([("mem", 8192, 8192), ("mem", 20000, 20480), ("file", 9 * 1024 * 1024, 12 * 1024 * 1024)] if thorough else [])
         nruns = 0
         for backend, size, cap in free:
             trace = sc.path("free-%s-%d.ndjson" % (backend, cap))
             runs = (500 if thorough else 100) if backend == "mem" else 30
             inp = {"backend": backend, "size": size, "cap": cap, "seed": seed, "runs": runs, "readers": 2,
-                   "ops": 60 if backend == "mem" else 20, "trace": trace, "dir": sc.dir}
+                   "ops": 60 if backend == "mem" else 20, "trace": trace, "dir": sc.dir, "close_fault_every": 3}
             rc, out, err = vlib.run_vdrv(["backlog-free"], stdin=json.dumps(inp), timeout=3000)
             if rc != 0:
                 raise Infra("vdrv backlog-free failed rc=%s: %s" % (rc, err[-2000:]))
